@@ -1384,6 +1384,13 @@ class ContactHandler(Messenger, dbus.service.Object):
         '''
         if reason_code is None:
             reason_code = messages.SessionTerm.Reason.UNKNOWN
+        if not self._in_sess:
+            # no session to terminate gracefully yet
+            self.close()
+            return
+        if self._in_term:
+            # termination is already in progress
+            return
         self.send_sess_term(reason_code, False)
 
     @dbus.service.method(DBUS_IFACE, in_signature='', out_signature='')
